@@ -391,7 +391,7 @@ def uses_case_or_regex(f):
     k = f["k"]
     if k in ("loglevel", "appmode"):
         return True
-    if f.get("case") or f.get("regex") or k == "hostname":
+    if f.get("case") or f.get("regex") or k == "hostname" or f.get("custom") == "upper":
         return True
     for sub in ("item", "key", "value"):
         if isinstance(f.get(sub), dict) and uses_case_or_regex(f[sub]):
